@@ -211,6 +211,9 @@ bool FIXReader::read(f8String& to)	// read a complete FIX message
 
 	if (result == static_cast<int>(_bg_sz))
 	{
+		if (!isdigit(msg_buf[_bg_sz - 1]))	// first chr of bodylength
+			throw IllegalMessage(msg_buf, FILE_LINE);
+		const size_t max_len_chrs(9);	// bodylength has at most 9 digits in all (fits unsigned), then ^A
 		char bt;
 		size_t offs(_bg_sz);
 		do	// get the last chrs of bodylength and ^A
@@ -221,7 +224,7 @@ bool FIXReader::read(f8String& to)	// read a complete FIX message
 				throw IllegalMessage(msg_buf, FILE_LINE);
 			msg_buf[offs++] = bt;
 		}
-		while (bt != default_field_separator && offs < _max_msg_len);
+		while (bt != default_field_separator && offs < _bg_sz + max_len_chrs);
 		to.assign(msg_buf, offs);
 
 		char tag[MAX_MSGTYPE_FIELD_LEN], val[FIX8_MAX_FLD_LENGTH];
